@@ -48,17 +48,22 @@ structure Cfg where
   holdViewOwning : Bool     -- `Storage.get_constituent_arrays` of an OWNING storage: `_hold_ref(arr, self)` for every returned view
   holdViewNonOwning : Bool  -- the same loop in the class of a NON-OWNING storage
   fromArraysOwns : Bool     -- `_conversions.from_constituent_arrays` instantiates the `owns_memory=True` class
+  holdOnBaseRoot : Bool     -- `Storage.get_constituent_arrays` walks `arr.base` down to the bottom of NumPy's base chain before
+                            --   `_hold_ref`: for an element type the MLIR runtime re-views (complex64/128, float16: the array
+                            --   returned is `raw.view(dtype)`) the keep-alive hangs on `raw`, not on the re-view
   deriving Repr, DecidableEq
 
 /-- every edge, non-owning input storages: what the ownership theorems need -/
-def Cfg.full : Cfg := { holdInputs := true, holdViewOwning := true, holdViewNonOwning := true, fromArraysOwns := false }
+def Cfg.full : Cfg :=
+  { holdInputs := true, holdViewOwning := true, holdViewNonOwning := true, fromArraysOwns := false, holdOnBaseRoot := true }
 
 /-- the source as it stands: read off `formats.py` / `_conversions.py` by tools/tables.d/C20.py -/
 def Cfg.code : Cfg :=
   { holdInputs := Gen.mlirHoldInputs.eval Gen.mlirFromArraysOwns,
     holdViewOwning := Gen.mlirHoldViews.eval true,
     holdViewNonOwning := Gen.mlirHoldViews.eval false,
-    fromArraysOwns := Gen.mlirFromArraysOwns }
+    fromArraysOwns := Gen.mlirFromArraysOwns,
+    holdOnBaseRoot := Gen.mlirHoldOnBaseRoot }
 
 /-- does a view of this storage keep it alive -/
 def Cfg.holdView (cfg : Cfg) (om : Bool) : Bool := if om then cfg.holdViewOwning else cfg.holdViewNonOwning
@@ -70,7 +75,7 @@ structure Heap where
   roots : List Nat     -- references held by the program (with multiplicity)
   dead : List Nat      -- finalised objects
   freed : List Nat     -- released buffers, most recent first
-  deriving Repr
+  deriving Repr, DecidableEq
 
 def Heap.empty : Heap := { objs := [], nbuf := 0, cont := [], roots := [], dead := [], freed := [] }
 
@@ -97,11 +102,13 @@ inductive Cmd where
                                       --   fields are the operand's buffers (MLIR folds the reshape away)
   | mkArray (s : Nat)                 -- `Array(storage=s, shape=…)`
   | view (a k : Nat)                  -- the `k`-th array of `a.get_constituent_arrays()`
-  | rawField (a k : Nat)              -- DEFECT (element types the MLIR runtime re-views: complex64/128, float16): the raw-pointer
-                                      --   array over the `k`-th field that `ranked_memref_to_numpy` builds first; nothing is
-                                      --   attached to it
-  | castView (r a : Nat)              --   … and `r.view(dtype)`, the array `get_constituent_arrays` returns for such a type:
-                                      --   `_hold_ref(this, storage)` is attached to THIS object, whose NumPy `base` is `r`
+  | rawField (a k : Nat)              -- element types the MLIR runtime re-views (complex64/128, float16): the raw-pointer array
+                                      --   over the `k`-th field that `ranked_memref_to_numpy` builds first.  With the base walk
+                                      --   (`Cfg.holdOnBaseRoot`) this is the object the keep-alive hangs on — it is then exactly
+                                      --   a `view`; without it nothing is attached to it
+  | castView (r a : Nat)              --   … and `r.view(dtype)`, the array `get_constituent_arrays` returns for such a type, whose
+                                      --   NumPy `base` is `r`: with the base walk a plain NumPy view of `r` (exactly `npView r`);
+                                      --   without it `_hold_ref(this, storage)` is attached to THIS object
   | alias (o : Nat)                   -- one more reference to an object (`asformat` to the same format …)
   | drop (o : Nat)                    -- `del name`
   | finalize (o : Nat)                -- the runtime finalises an unreachable object
@@ -112,13 +119,28 @@ collapse to the array at the bottom, so a view of a view does NOT keep the inter
 def npBase (h : Heap) (o : Nat) : Nat :=
   if (h.obj o).kind = .ndarray ∧ (h.obj o).owns = [] then (h.obj o).refs.headD o else o
 
+/-- a NumPy view of `o` -/
+def mkNpView (h : Heap) (o : Nat) : Option (Obj × List Nat) :=
+  if (reachable h).contains o && ((h.obj o).kind == .ndarray || (h.obj o).kind == .view) then
+    some ({ kind := .ndarray, refs := [npBase h o], bufs := (h.obj o).bufs, owns := [] }, [])
+  else none
+
+/-- the raw-pointer array over the `k`-th field of the storage of `a`, with the keep-alive edge to the storage (if the code
+makes it for this kind of storage) -/
+def mkView (cfg : Cfg) (h : Heap) (a k : Nat) : Option (Obj × List Nat) :=
+  if (reachable h).contains a && (h.obj a).kind == .array then
+    match (h.obj a).refs with
+    | [s] =>
+      match (h.obj s).bufs[k]? with
+      | some b => some ({ kind := .view, refs := if cfg.holdView (h.obj s).om then [s] else [], bufs := [b], owns := [] }, [])
+      | none => none
+    | _ => none
+  else none
+
 /-- the object a creating command builds, with the contents of the buffers it allocates -/
 def mkObj (cfg : Cfg) (h : Heap) : Cmd → Option (Obj × List Nat)
   | .newArray tok => some ({ kind := .ndarray, refs := [], bufs := [h.nbuf], owns := [h.nbuf] }, [tok])
-  | .npView o =>
-    if (reachable h).contains o && ((h.obj o).kind == .ndarray || (h.obj o).kind == .view) then
-      some ({ kind := .ndarray, refs := [npBase h o], bufs := (h.obj o).bufs, owns := [] }, [])
-    else none
+  | .npView o => mkNpView h o
   | .mkStorage srcs =>
     if srcs.all fun s => (reachable h).contains s && ((h.obj s).kind == .ndarray || (h.obj s).kind == .view) then
       some ({ kind := .storage, refs := if cfg.holdInputs then srcs else [],
@@ -143,17 +165,10 @@ def mkObj (cfg : Cfg) (h : Heap) : Cmd → Option (Obj × List Nat)
     if (reachable h).contains s && (h.obj s).kind == .storage then
       some ({ kind := .array, refs := [s], bufs := [], owns := [] }, [])
     else none
-  | .view a k =>
-    if (reachable h).contains a && (h.obj a).kind == .array then
-      match (h.obj a).refs with
-      | [s] =>
-        match (h.obj s).bufs[k]? with
-        | some b => some ({ kind := .view, refs := if cfg.holdView (h.obj s).om then [s] else [], bufs := [b], owns := [] }, [])
-        | none => none
-      | _ => none
-    else none
+  | .view a k => mkView cfg h a k
   | .rawField a k =>
-    if (reachable h).contains a && (h.obj a).kind == .array then
+    if cfg.holdOnBaseRoot then mkView cfg h a k
+    else if (reachable h).contains a && (h.obj a).kind == .array then
       match (h.obj a).refs with
       | [s] =>
         match (h.obj s).bufs[k]? with
@@ -162,7 +177,8 @@ def mkObj (cfg : Cfg) (h : Heap) : Cmd → Option (Obj × List Nat)
       | _ => none
     else none
   | .castView r a =>
-    if (reachable h).contains r && (reachable h).contains a && (h.obj a).kind == .array && (h.obj r).kind == .ndarray then
+    if cfg.holdOnBaseRoot then mkNpView h r
+    else if (reachable h).contains r && (reachable h).contains a && (h.obj a).kind == .array && (h.obj r).kind == .ndarray then
       match (h.obj a).refs with
       | [s] => some ({ kind := .ndarray, refs := r :: (if cfg.holdView (h.obj s).om then [s] else []),
                        bufs := (h.obj r).bufs, owns := [] }, [])
@@ -170,16 +186,12 @@ def mkObj (cfg : Cfg) (h : Heap) : Cmd → Option (Obj × List Nat)
     else none
   | _ => none
 
-/-- the commands of the excluded region: results that alias their operand, and constituent arrays of an element type the
-MLIR runtime re-views (the keep-alive is attached to the re-view, not to the array NumPy views are based on) -/
+/-- the commands of the excluded region: results that alias their operand -/
 def Cmd.excluded : Cmd → Bool
   | .opAliased _ => true
-  | .rawField _ _ => true
-  | .castView _ _ => true
   | _ => false
 
-/-- a history is excluded when it contains an aliasing result (what a rank-1 → rank-1 `reshape` returned) or takes the
-constituent arrays of a complex64 / complex128 / float16 array -/
+/-- a history is excluded when it contains an aliasing result (what a rank-1 → rank-1 `reshape` returned) -/
 def ExcludedHistory (cs : List Cmd) : Bool := cs.any Cmd.excluded
 
 /-- add a new object; the program holds a reference to it -/
@@ -209,9 +221,18 @@ def dangling (h : Heap) : List (Nat × Nat) :=
 def garbage (h : Heap) : List Nat :=
   (List.range h.objs.length).filter fun o => !(reachable h).contains o && !h.dead.contains o
 
+/-- `t = to_numpy(add(x, x))` for a complex64 / complex128 / float16 array: the result storage (object 0, owning),
+its array (1), the raw-pointer array over the values field (2), its re-view `data` (3), `t = data.reshape(…).transpose(…)`
+whose NumPy base is the raw array 2, not `data` (4); `data` goes out of scope when `to_numpy` returns, the temporary result
+array is dropped, the storage is finalised — which is possible only if nothing reachable keeps it alive -/
+def castWitness : List Cmd :=
+  [.opStorage [1], .mkArray 0, .drop 0, .rawField 1 0, .castView 2 1, .npView 3, .drop 2, .drop 3, .finalize 3,
+   .drop 1, .finalize 1, .finalize 0]
+
 /-- a history that defeats a configuration other than the code's: the first of
 (conversions building OWNING storages over the caller's arrays; no `_hold_ref(storage, arr)`; no `_hold_ref(view, storage)`
-for OWNING storages; no `_hold_ref(view, storage)` for NON-OWNING storages) that applies -/
+for OWNING storages; the keep-alive on the re-view instead of the bottom of the base chain; no `_hold_ref(view, storage)` for
+NON-OWNING storages) that applies -/
 def edgeWitness (cfg : Cfg) : List Cmd :=
   if cfg.fromArraysOwns then
     [.newArray 7, .mkStorage [0], .drop 1, .finalize 1]                            -- the storage releases the caller's buffer
@@ -219,6 +240,7 @@ def edgeWitness (cfg : Cfg) : List Cmd :=
     [.newArray 7, .mkStorage [0], .mkArray 1, .drop 1, .drop 0, .finalize 0]       -- x = asarray(a); del a
   else if !cfg.holdViewOwning then
     [.opStorage [1, 2, 3], .mkArray 0, .drop 0, .view 1 2, .drop 1, .finalize 1, .finalize 0]   -- v = r.get_constituent_arrays()[2]; del r
+  else if cfg.holdViewNonOwning && !cfg.holdOnBaseRoot then castWitness
   else
     -- a = np…; x = asarray(a); v = x.get_constituent_arrays()[0]; del a; del x   (to_numpy / to_scipy hand back such views)
     [.newArray 7, .mkStorage [0], .mkArray 1, .drop 1, .view 2 0, .drop 0, .drop 2, .finalize 2, .finalize 1, .finalize 0]
